@@ -278,6 +278,23 @@ def rule_scope_order(prog):
                         out.add(b["d"], "no direct global lookup while the procedure's LookupTable is in scope", False, bc.loc(lk["sp"]),
                                 "a name inside a procedure is looked up in the global table although a LookupTable with the "
                                 "procedure's local table is at hand: locals and parameters no longer shadow globals", ("site",))
+    # (5) the semantic analysis of a procedure body receives the scoped LookupTable: a function that has one as parameter
+    #     never resolves a name directly against the global table
+    for b in fc.bodies:
+        if not b["p"].startswith("spl_frontend::table::semantic") or "/tests" in fc.file_of(b["sp"]):
+            continue
+        has_lt = any(hir.adt_path(fc, pp["bt"]) == LT for q in b["params"] for pp in hir.pat_bindings(q))
+        if not has_lt:
+            continue
+        for lk in hir.nodes(b["body"], "MethodCall"):
+            if lk["m"] != "lookup" or not lk["args"]:
+                continue
+            recv_t = _recv_adt(fc, lk)
+            if recv_t in (GT, LT):
+                n_sites += 1
+                out.add(b["d"], "names in a procedure body are resolved through the scoped LookupTable", recv_t == LT, fc.loc(lk["sp"]),
+                        "the analysis has the procedure's LookupTable but asks the global table directly: a local variable or parameter "
+                        "of that name no longer shadows the global declaration (wrong or missing diagnostic)", ("site", "semantic"))
     if n_sites < 5:
         out.missing("LookupTable lookups in feature handlers (found %d)" % n_sites)
     return out
